@@ -114,7 +114,7 @@ def readArg (sp : Spec) (d s : Bytes) : Bytes × Bytes × Bool :=
     | none => (d, [], false)
     | some (l, s1) =>
       let d1 := d ++ l
-      let size := pad4 d1.length (leVal l)
+      let size := pad4 (d.length + 2) (leVal l)
       if size = 0 then (d1, s1, true) else
       match fread size s1 with
       | none => (d1, [], false)
@@ -202,7 +202,7 @@ def readPayload (fixed : Bool) (ctx : Ctx) (typ addr : Nat) (st : RState) (s : B
 /-! ### one record -/
 
 inductive StepRes
-  | rec (r : Rec) (st : RState) (rest : Bytes)
+  | got (r : Rec) (st : RState) (rest : Bytes)
   | done (status : Status) (st : RState)
   deriving Repr
 
@@ -214,16 +214,18 @@ def decodeHdr (h : Bytes) : Rec :=
 
 def hdrMagic (h : Bytes) : Nat := (leVal (h.drop 8) / 8) % 8
 
+/-- `task->args.args == NULL || task->args.len == 0`, minus the zero-length-struct exception -/
+def isMissing (isRet : Bool) (args : ArgsPtr) (data : Bytes) : Bool :=
+  match args with
+  | .null => true
+  | .specs l => data.isEmpty && actualLen isRet l != 0
+  | .event => data.isEmpty
+
 /-- the test after the payload read: deliver or "record missing argument info" -/
 def deliver (r0 : Rec) (args : ArgsPtr) (data rest : Bytes) (ust : Bytes) (partl : Bool) : StepRes :=
-  let st' : RState := { args := args, data := data, ust := ust }
-  let missing :=
-    match args with
-    | .null => true
-    | .specs l => data.isEmpty && actualLen (r0.typ == 1) l != 0
-    | .event => data.isEmpty
-  if missing then .done .missingArg st'
-  else .rec { r0 with payload := data, partl := partl } st' rest
+  if isMissing (r0.typ == 1) args data then
+    .done .missingArg { args := args, data := data, ust := ust }
+  else .got { r0 with payload := data, partl := partl } { args := args, data := data, ust := ust } rest
 
 /-- `read_task_ustack` -/
 def readRec (fixed : Bool) (ctx : Ctx) (st : RState) (s : Bytes) : StepRes :=
@@ -234,7 +236,7 @@ def readRec (fixed : Bool) (ctx : Ctx) (st : RState) (s : Bytes) : StepRes :=
   | some (h, s1) =>
     if hdrMagic h ≠ 5 then .done .badMagic { st with ust := h } else
     let r0 := decodeHdr h
-    if !r0.more then .rec r0 { st with ust := h } s1 else
+    if !r0.more then .got r0 { st with ust := h } s1 else
     match readPayload fixed ctx r0.typ r0.addr st s1 with
     | .ok args data rest => deliver r0 args data rest h false
     | .stop status => .done status { st with ust := h }
@@ -247,7 +249,7 @@ def readAllF (fixed : Bool) (ctx : Ctx) : Nat → RState → Bytes → List Rec 
   | n + 1, st, s =>
     match readRec fixed ctx st s with
     | .done status st' => ([], status, st'.ust)
-    | .rec r st' rest =>
+    | .got r st' rest =>
       let x := readAllF fixed ctx n st' rest
       (r :: x.1, x.2)
 
@@ -259,26 +261,30 @@ def readAll (fixed : Bool) (ctx : Ctx) (s : Bytes) : List Rec × Status × Bytes
 
 def align4 (n : Nat) : Nat := (n + 3) / 4 * 4
 
-/-- `get_argspec_string` (raw = false) and `pr_args`/`pr_retval` of `dump` (raw = true):
-    every access stays inside the `len` bytes of the copy of `args.data`.
-    `memcpy(val.v, data, spec->size)` also needs `size ≤ 16`. -/
+/-- one spec of `get_argspec_string` (raw = false) or of `pr_args`/`pr_retval` of `dump`
+    (raw = true): (all accesses are inside the `len` bytes of the copy of `args.data`, the size
+    the walk advances by).  `memcpy(val.v, data, spec->size)` also needs `size ≤ 16` (8 in dump). -/
+def consumeOne (fixed raw : Bool) (sp : Spec) (off : Nat) (d : Bytes) : Bool × Nat :=
+  match sp.fmt with
+  | .str =>
+    if off + 2 ≤ d.length then
+      let slen := leVal ((d.drop off).take 2)
+      -- raw dump: memcmp(buf, &null_str, 4) on a (slen + 1)-byte buffer
+      (decide (off + 2 + slen ≤ d.length) && (!raw || fixed || decide (4 ≤ slen + 1)), slen + 2)
+    else (false, 0)
+  | .chr => if raw then (decide (off + sp.size ≤ d.length ∧ sp.size ≤ 8), sp.size)
+            else (decide (off + 1 ≤ d.length), 1)
+  | .strct => if raw then (decide (off + sp.size ≤ d.length), sp.size) else (true, sp.size)
+  | .other => (decide (off + sp.size ≤ d.length ∧ sp.size ≤ (if raw then 8 else 16)), sp.size)
+
+/-- the consumers' walk over the wanted specs (replay stops after the first return value) -/
 def consumeSpecs (fixed raw isRet : Bool) : List Spec → Nat → Bytes → Bool
   | [], _, _ => true
   | sp :: r, off, d =>
     if isRet != (sp.idx == 0) then consumeSpecs fixed raw isRet r off d else
-    let x : Bool × Nat :=
-      match sp.fmt with
-      | .str =>
-        if off + 2 ≤ d.length then
-          let slen := leVal ((d.drop off).take 2)
-          -- raw dump: memcmp(buf, &null_str, 4) on a (slen + 1)-byte buffer
-          (decide (off + 2 + slen ≤ d.length) && (!raw || fixed || decide (4 ≤ slen + 1)), slen + 2)
-        else (false, 0)
-      | .chr => if raw then (decide (off + sp.size ≤ d.length ∧ sp.size ≤ 8), sp.size)
-                else (decide (off + 1 ≤ d.length), 1)
-      | .strct => if raw then (decide (off + sp.size ≤ d.length), sp.size) else (true, sp.size)
-      | .other => (decide (off + sp.size ≤ d.length ∧ sp.size ≤ (if raw then 8 else 16)), sp.size)
-    x.1 && (if isRet && !raw then true else consumeSpecs fixed raw isRet r (off + align4 x.2) d)
+    (consumeOne fixed raw sp off d).1 &&
+      (if isRet && !raw then true
+       else consumeSpecs fixed raw isRet r (off + align4 (consumeOne fixed raw sp off d).2) d)
 
 /-- `event_get_data_str` -/
 def consumeEvent (id : Nat) (d : Bytes) : Bool :=
@@ -335,10 +341,19 @@ def WF (ctx : Ctx) (r : Rec) : Prop :=
       (eventSize r.addr = some r.payload.length ∨
        (r.addr = watchVarId ∧ 8 ≤ r.payload.length ∧ r.payload.length ≤ 16))))
 
-/-- the header of the last record (what `task->ustack` holds at the end) -/
-def lastHdr : List Rec → Bytes
-  | [] => zeros 16
-  | [r] => encHdr r
-  | _ :: r :: rs => lastHdr (r :: rs)
+/-- what `task->ustack` holds after reading the records `rs` on top of `u` -/
+def lastHdrOr (u : Bytes) : List Rec → Bytes
+  | [] => u
+  | r :: rs => lastHdrOr (encHdr r) rs
+
+/-- the header of the last record (zeros when there is none) -/
+def lastHdr (rs : List Rec) : Bytes := lastHdrOr (zeros 16) rs
+
+/-- sanity of an argument spec as `parse_argspec` produces it: strings have a non-zero size
+    field, a char is one byte, scalars fit the consumers' 8-byte temporaries -/
+def SpecOK (sp : Spec) : Prop :=
+  (sp.fmt = .str → sp.size ≠ 0) ∧ (sp.fmt = .chr → sp.size = 1) ∧ (sp.fmt = .other → sp.size ≤ 8)
+
+def SpecsOK (ctx : Ctx) : Prop := ∀ a l, ctx.specs a = some l → ∀ sp ∈ l, SpecOK sp
 
 end Uft.Trunc
